@@ -21,7 +21,7 @@ one() {
   rm -rf "$tmp"; git -C /repo worktree remove --force "$wt" >/dev/null 2>&1
 }
 export -f one
-ls -d seeded/$ONLY/ | sed 's#/$##' | xargs -P "$JOBS" -I{} bash -c 'one {}' | sort > .cache/matrix/new.txt
+( if [ -n "$LIST" ]; then for n in $LIST; do echo "seeded/$n"; done; else ls -d seeded/$ONLY/ | sed 's#/$##'; fi ) | xargs -P "$JOBS" -I{} bash -c 'one {}' | sort > .cache/matrix/new.txt
 # merge with the rows of earlier runs (ONLY=<glob> re-runs a subset)
 touch .cache/matrix/matrix.txt
 python3 - <<'EOM'
